@@ -74,6 +74,12 @@ pub fn call_tag(path: &str) -> String {
 /// `Refused` is consumed by a connect attempt, `ClosedWhileIdle` by closing the live
 /// connection before the next request, the rest by a request.
 pub fn run_node(listener: TcpListener, seq: Vec<Outcome>, log: Arc<std::sync::Mutex<NodeLog>>, stop: Arc<std::sync::atomic::AtomicBool>) {
+    run_node_opts(listener, seq, log, stop, false)
+}
+
+/// `silent_mutes_conn`: after a Silent outcome the connection stays open but is never
+/// answered again (a black-holed connection); fresh connections are served normally.
+pub fn run_node_opts(listener: TcpListener, seq: Vec<Outcome>, log: Arc<std::sync::Mutex<NodeLog>>, stop: Arc<std::sync::atomic::AtomicBool>, silent_mutes_conn: bool) {
     let addr = listener.local_addr().unwrap();
     let mut i = 0usize;
     let mut conn: Option<TcpStream> = None;
@@ -159,7 +165,34 @@ pub fn run_node(listener: TcpListener, seq: Vec<Outcome>, log: Arc<std::sync::Mu
             }
             Outcome::Silent => {
                 simkernel::count("fault.silent_until_timeout");
-                // say nothing; the caller's timeout decides. Keep reading on this connection.
+                // say nothing; the caller's timeout decides.
+                if silent_mutes_conn {
+                    // the connection went dead without closing: keep it open, never answer on
+                    // it again, serve new connections
+                    simkernel::count("fault.connection_black_holed");
+                    let mut dead = conn.take().unwrap();
+                    let (log2, stop2, ser) = (log.clone(), stop.clone(), serial);
+                    thread::spawn(move || {
+                        dead.set_read_timeout(Some(Duration::from_millis(500))).ok();
+                        loop {
+                            if stop2.load(std::sync::atomic::Ordering::SeqCst) {
+                                return;
+                            }
+                            match read_frame(&mut dead) {
+                                Ok(Some(f)) => {
+                                    let tag = call_tag(&f.query_str());
+                                    let mut l = log2.lock().unwrap();
+                                    l.requests.push((tag.clone(), ser));
+                                    l.events.push(format!("request {tag} on #{ser}: Muted"));
+                                }
+                                Ok(None) => return,
+                                Err(e) if e.kind() == ErrorKind::WouldBlock => continue,
+                                Err(_) => return,
+                            }
+                        }
+                    });
+                }
+                // otherwise keep reading on this connection.
             }
             Outcome::Malformed => {
                 simkernel::count("fault.malformed_reply");
@@ -200,13 +233,14 @@ fn c19_fleet_seq(case: &Case) {
     let timeout_ms = pick(&[20u64, 100, 400]);
     let delay_ms = pick(&[1u64, 10, 50]);
     let ncalls = range(1, 3);
+    let silent_mutes_conn = simkernel::choose(2) == 0;
     case.sample(json!({"max_attempts": max_attempts, "outcomes": seq.iter().map(|o| format!("{o:?}")).collect::<Vec<_>>(),
-        "timeout_ms": timeout_ms, "retry_delay_ms": delay_ms, "scripted_calls": ncalls}));
+        "timeout_ms": timeout_ms, "retry_delay_ms": delay_ms, "scripted_calls": ncalls, "silent_connection_stays_dead": silent_mutes_conn}));
 
     let log = Arc::new(std::sync::Mutex::new(NodeLog::default()));
     let stop = Arc::new(std::sync::atomic::AtomicBool::new(false));
     let (l2, s2, seq2) = (log.clone(), stop.clone(), seq.clone());
-    let node = thread::spawn(move || run_node(listener, seq2, l2, s2));
+    let node = thread::spawn(move || run_node_opts(listener, seq2, l2, s2, silent_mutes_conn));
 
     let cfg = NodeConfig::new("127.0.0.1", addr.port())
         .unwrap()
